@@ -810,7 +810,14 @@ func (w *World) opWipeKeyBuffer(step int) {
 	}
 	w.r.Fault("caller_overwrites_accessor_outputs")
 	if !bytes.Equal(sg.priv.Bytes(), sg.dBytes) {
-		w.r.Violate("C09", "key-follows-caller-buffer", "NewPrivateKey", step, "after the caller overwrote the buffer it had passed to NewPrivateKey, key %d reads %x instead of %x", ki, sg.priv.Bytes(), sg.dBytes)
+		w.r.Violate("C09", "key-follows-caller-buffer", "NewPrivateKey", step, "after the caller overwrote the buffer it had passed to NewPrivateKey and the values its accessors had handed out, key %d reads %x instead of %x", ki, sg.priv.Bytes(), sg.dBytes)
+		// the key is no longer the key of the model; the caller imports it
+		// again so that the rest of the history has a usable signer
+		if np, err := secec.NewPrivateKey(append([]byte(nil), sg.dBytes...)); err == nil {
+			sg.priv = np
+			sg.sch = bitcoin.NewSchnorrPrivateKeyFromECDSA(np)
+		}
+		return
 	}
 	// sign the latest event of this key again: identical inputs, identical output
 	for i := len(w.events) - 1; i >= 0; i-- {
